@@ -98,9 +98,8 @@ func (xr *xssRoots) run(name string, cfg absint.Config, fn *ssa.Function, setup 
 		cfg.Trace = true
 	}
 	t0 := time.Now()
-	e := absint.NewEngine(xr.env.p, cfg)
-	e.RunRoot(fn, setup)
-	r := &e3Run{name: name, eng: e, dur: time.Since(t0)}
+	e, level := xr.env.runEscalating(cfg, fn, setup)
+	r := &e3Run{name: name, eng: e, dur: time.Since(t0), level: level}
 	if os.Getenv("VERIF_PROGRESS") != "" {
 		fmt.Fprintf(os.Stderr, "root %s done in %v\n", name, r.dur)
 	}
@@ -504,7 +503,7 @@ func (xr *xssRoots) describe() []string {
 				bad++
 			}
 		}
-		out = append(out, fmt.Sprintf("%s: %d obligations, %d undischarged, %d inlinings, %d LPs, %.1fs", r.name, n, bad, r.eng.Inlined, r.eng.LP.Calls, r.dur.Seconds()))
+		out = append(out, fmt.Sprintf("%s: %d obligations, %d undischarged, %d inlinings, %d LPs, %.1fs%s", r.name, n, bad, r.eng.Inlined, r.eng.LP.Calls, r.dur.Seconds(), levelNote(r.level)))
 	}
 	var facts []string
 	for fn, v := range xr.posGE1 {
